@@ -57,7 +57,12 @@ def verify_lanczos(ctx, A, v, v0, m, out, ncalls, detail, s=False):
         # the space must be exhausted AT OR BEFORE k (the iteration may have continued past a numerically exhausted space -- residual ~3e-13, just above its
         # absolute breakdown threshold -- into rounding noise and stopped a few steps later)
         rk = min(res[:k]) if k - 1 < len(res) else 0.0
-        ctx.close('lanczos.early-return-justified', rk, 1e-8, f'returned k={k} < m={m} although the residual after {k} vectors is not ~0', detail, s)
+        # a residual of relative size r amplifies the rounding noise of the next Krylov vector to ~eps / r: right after a near-breakdown step (r ~ 3e-8) the
+        # next residual is only known to ~1e-8, and the iteration's absolute threshold may legitimately see it below its limit (observed: 1.3e-8 for a matrix
+        # scaled by 1e-4, thorough tier seed 1). The bound stays between 1e-8 and 2.2e-7.
+        prev = min(res[:k - 1]) if k >= 2 and len(res) >= k - 1 else 1.0
+        tol_j = max(1e-8, 10 * np.finfo(float).eps / max(prev, 1e-8))
+        ctx.close('lanczos.early-return-justified', rk, tol_j, f'returned k={k} < m={m} although the residual after {k} vectors is not ~0', detail, s)
         ctx.event('lanczos_early_return')
     margin = min(res[:m - 1]) if m > 1 and len(res) >= m - 1 else (np.inf if m == 1 else 0.0)
     if margin > 1e-5:
@@ -114,7 +119,8 @@ def verify_arnoldi(ctx, A, v, v0, m, out, ncalls, detail, s=False):
         # the space must be exhausted AT OR BEFORE k (the iteration may have continued past a numerically exhausted space -- residual ~3e-13, just above its
         # absolute breakdown threshold -- into rounding noise and stopped a few steps later)
         rk = min(res[:k]) if k - 1 < len(res) else 0.0
-        ctx.close('arnoldi.early-return-justified', rk, 1e-8, f'returned k={k} < m={m} although the Krylov space is not exhausted', detail, s)
+        prev = min(res[:k - 1]) if k >= 2 and len(res) >= k - 1 else 1.0
+        ctx.close('arnoldi.early-return-justified', rk, max(1e-8, 10 * np.finfo(float).eps / max(prev, 1e-8)), f'returned k={k} < m={m} although the Krylov space is not exhausted', detail, s)
         ctx.event('arnoldi_early_return')
     margin = min(res[:m - 1]) if m > 1 and len(res) >= m - 1 else (np.inf if m == 1 else 0.0)
     if margin > 1e-5:
